@@ -1,0 +1,70 @@
+//go:build verif
+
+// Contracts (property C20) for pkg/test, read by /verif/engine (govc). Comments only.
+// Ghost state, callback contract and vocabulary: /verif/specs/75_test.spec.
+package test
+
+//@ func isLiteralTrue(val)
+//@   tags C20, C10
+//@   assigns fresh-only
+//@   requires[C20] canon: val is rel.GenericSet ==> !(gcount(val) == 1 && ghas(val, emptyTupleVal))    // C02: {()} is only ever a TrueSet
+//@   ensures[C20] exact: result <==> val is rel.TrueSet
+
+//@ func isLiteralFalse(val)
+//@   tags C20, C10
+//@   assigns nothing
+//@   ensures[C20] exact: result <==> (val is rel.EmptySet || (val is rel.GenericSet && gcount(val) == 0))
+
+//@ func ForeachLeaf(val, path, leafAction)
+//@   tags C20, C10
+//@   assigns fresh-only
+//@   modifies leafcalls, fevisits
+//@   fnparam leafAction contract test.leafAction
+//@   ghostentry fevisits := fevisits + 1
+//@   requires[C20] nonnil: val != nil
+//@   requires leafAction != nil
+//@   ensures[C20] leaf: !container(val) ==> leafcalls == old(leafcalls) + 1 && fevisits == old(fevisits) + 1
+//@   ensures[C20] mono: leafcalls >= old(leafcalls) && fevisits >= old(fevisits) + 1
+//@   ensures[C20] arr: val is rel.Array ==> fevisits >= old(fevisits) + 1 + len(val.(rel.Array).values)
+//@   loop 0 invariant leafcalls >= old(leafcalls) && fevisits >= old(fevisits) + 1 + $idx
+//@   loop 1 invariant leafcalls >= old(leafcalls) && fevisits >= old(fevisits) + 1
+//@   loop 2 invariant leafcalls >= old(leafcalls) && fevisits >= old(fevisits) + 1 && e != nil
+
+//@ func calcStats(testFiles)
+//@   tags C20, C10
+//@   assigns nothing
+//@   requires[C20] outcomes: allValid(testFiles)
+//@   ensures[C20] sum: result.total == result.invalid + result.passed + result.ignored + result.failed
+//@   ensures[C20] nofalsepass: !result.runFailed ==> !anyBad(testFiles)
+//@   ensures[C20] nofalsefail: result.runFailed ==> anyBad(testFiles)
+//@   loop 0 invariant rng: 0 <= $idx && $idx <= len(testFiles)
+//@   loop 0 invariant sum: stats.total == stats.invalid + stats.passed + stats.ignored + stats.failed
+//@   loop 0 invariant nn: stats.failed >= 0 && stats.invalid >= 0
+//@   loop 0 invariant ok: (stats.failed == 0 && stats.invalid == 0) ==> forall i in 0..$idx :: forall j in 0..len(testFiles[i].Results) :: !badOutcome(testFiles[i].Results[j].Outcome)
+//@   loop 0 invariant bad: (stats.failed > 0 || stats.invalid > 0) ==> exists i in 0..$idx :: exists j in 0..len(testFiles[i].Results) :: badOutcome(testFiles[i].Results[j].Outcome)
+//@   loop 1 invariant sum: stats.total == stats.invalid + stats.passed + stats.ignored + stats.failed
+//@   loop 1 invariant nn: stats.failed >= 0 && stats.invalid >= 0
+//@   loop 1 invariant ok: (stats.failed == 0 && stats.invalid == 0) ==> (forall i in 0..$idx0 :: forall j in 0..len(testFiles[i].Results) :: !badOutcome(testFiles[i].Results[j].Outcome)) && (forall j in 0..$idx :: !badOutcome(testFiles[$idx0].Results[j].Outcome))
+//@   loop 1 invariant bad: (stats.failed > 0 || stats.invalid > 0) ==> (exists i in 0..$idx0 :: exists j in 0..len(testFiles[i].Results) :: badOutcome(testFiles[i].Results[j].Outcome)) || (exists j in 0..$idx :: badOutcome(testFiles[$idx0].Results[j].Outcome))
+//@   loop 1 invariant cur: 0 <= $idx0 && $idx0 < len(testFiles) && 0 <= $idx && $idx <= len(testFiles[$idx0].Results)
+
+//@ func Report(w, testFiles)
+//@   tags C20, C10
+//@   requires[C20] outcomes: allValid(testFiles)
+//@   ensures[C20] verdict: (result != nil) <==> old(anyBad(testFiles))
+
+// The leaf callback of RunExpr (function literal RunExpr$1; `results` is the captured slice variable).
+// It satisfies the callback contract test.leafAction (requires val != nil) and classifies the leaf:
+// Passed (3) iff literal true, Failed (0) iff literal false, Invalid (1) otherwise; never Ignored (2);
+// exactly one Result is appended, named by the path.
+//@ spec litFalse(v) = v is rel.EmptySet || (v is rel.GenericSet && gcount(v) == 0)
+//@ func RunExpr$1(val, path)
+//@   tags C20, C10
+//@   requires[C20] nonnil: val != nil
+//@   requires[C20] canon: val is rel.GenericSet ==> !(gcount(val) == 1 && ghas(val, emptyTupleVal))
+//@   ensures[C20] once: len(results) == old(len(results)) + 1
+//@   ensures[C20] named: results[len(results)-1].Name == path
+//@   ensures[C20] passed: (results[len(results)-1].Outcome == 3) <==> val is rel.TrueSet
+//@   ensures[C20] failed: (results[len(results)-1].Outcome == 0) <==> (!(val is rel.TrueSet) && litFalse(val))
+//@   ensures[C20] invalid: (results[len(results)-1].Outcome == 1) <==> (!(val is rel.TrueSet) && !litFalse(val))
+//@   ensures[C20] valid: validOutcome(results[len(results)-1].Outcome)
